@@ -216,30 +216,7 @@ func runC11(c *eng.Ctx) {
 	})
 
 	// ---- 2. writers vs flush -----------------------------------------------------------------------------------------------------
-	c.Rule("ORDER", dfT+".WriteRows{acquire<write<complete} / FlushFamilyTo{wait}", func() {
-		w := c.Fn(dfT + ".WriteRows")
-		acq := c.One(w, invokeOn("", "AcquireWrite"), "db.AcquireWrite()")
-		wr := c.Some(w, invokeOn("", "WriteRow"), "db.WriteRow(row)")
-		for i, s := range wr {
-			c.Check(eng.DominatedBy(w, s.Instr, []eng.Site{acq}, nil), fmt.Sprintf("acquire<write[%d]", i), s.Instr, w, "rows are written only inside an acquired write (a flush waits for it)", "")
-		}
-		okDef := false
-		for _, cl := range w.AnonFuncs {
-			if p.MustPass(cl, invokeOn("", "CompleteWrite"), 0) {
-				okDef = true
-			}
-		}
-		d := p.Sites(w, func(p *eng.Prog, in ssa.Instruction) bool { _, ok := in.(*ssa.Defer); return ok })
-		c.Check(okDef && len(d) > 0 && eng.DominatedBy(w, wr[0].Instr, d, nil) && eng.DominatedBy(w, d[0].Instr, []eng.Site{acq}, nil), "complete-deferred", nil, w,
-			"the write is completed on every exit (deferred right after the acquire)", "")
-		fl := c.Fn("tsdb/memdb.memoryDatabase.FlushFamilyTo")
-		wt := c.One(fl, invokeOn(".writeCondition", "Wait"), "writeCondition.Wait()")
-		first := p.Sites(fl, invokeOn("", "GetMetricIDs"))
-		c.Check(len(first) > 0 && eng.DominatedBy(fl, first[0].Instr, []eng.Site{wt}, nil), "flush-waits-for-writers", wt.Instr, fl, "a flush waits for in-flight writers before it reads the memory database", "")
-		aw := c.Fn("tsdb/memdb.memoryDatabase.AcquireWrite")
-		cw := c.Fn("tsdb/memdb.memoryDatabase.CompleteWrite")
-		c.Check(len(p.Sites(aw, invokeOn(".writeCondition", "Add"))) == 1 && len(p.Sites(cw, invokeOn(".writeCondition", "Done"))) == 1, "acquire-add/complete-done", nil, aw, "acquire/complete are the Add/Done of the condition the flush waits on", "")
-	})
+	c.Rule("ORDER", dfT+".WriteRows{acquire<write<complete} / FlushFamilyTo{wait}", func() { writeBracketRule(c) })
 
 	// ---- 5. slot range union in the field writer ---------------------------------------------------------------------------------------
 	c.Rule("SYMMETRY", "tsdb/memdb.getTimeSlotRange{union}", func() { // key kept from the first version of the rule
@@ -773,4 +750,31 @@ func partialMergeByAggType(c *eng.Ctx) {
 		}
 	}
 	c.Check(dep, "fold-target-depends-on-the-type", typ[0].Instr, f, "which series of the target receives the value is decided by the incoming series' aggregate type", "")
+}
+
+func writeBracketRule(c *eng.Ctx) {
+	p := c.P
+	_ = p
+	w := c.Fn(dfT + ".WriteRows")
+	acq := c.One(w, invokeOn("", "AcquireWrite"), "db.AcquireWrite()")
+	wr := c.Some(w, invokeOn("", "WriteRow"), "db.WriteRow(row)")
+	for i, s := range wr {
+		c.Check(eng.DominatedBy(w, s.Instr, []eng.Site{acq}, nil), fmt.Sprintf("acquire<write[%d]", i), s.Instr, w, "rows are written only inside an acquired write (a flush waits for it)", "")
+	}
+	okDef := false
+	for _, cl := range w.AnonFuncs {
+		if p.MustPass(cl, invokeOn("", "CompleteWrite"), 0) {
+			okDef = true
+		}
+	}
+	d := p.Sites(w, func(p *eng.Prog, in ssa.Instruction) bool { _, ok := in.(*ssa.Defer); return ok })
+	c.Check(okDef && len(d) > 0 && eng.DominatedBy(w, wr[0].Instr, d, nil) && eng.DominatedBy(w, d[0].Instr, []eng.Site{acq}, nil), "complete-deferred", nil, w,
+		"the write is completed on every exit (deferred right after the acquire)", "")
+	fl := c.Fn("tsdb/memdb.memoryDatabase.FlushFamilyTo")
+	wt := c.One(fl, invokeOn(".writeCondition", "Wait"), "writeCondition.Wait()")
+	first := p.Sites(fl, invokeOn("", "GetMetricIDs"))
+	c.Check(len(first) > 0 && eng.DominatedBy(fl, first[0].Instr, []eng.Site{wt}, nil), "flush-waits-for-writers", wt.Instr, fl, "a flush waits for in-flight writers before it reads the memory database", "")
+	aw := c.Fn("tsdb/memdb.memoryDatabase.AcquireWrite")
+	cw := c.Fn("tsdb/memdb.memoryDatabase.CompleteWrite")
+	c.Check(len(p.Sites(aw, invokeOn(".writeCondition", "Add"))) == 1 && len(p.Sites(cw, invokeOn(".writeCondition", "Done"))) == 1, "acquire-add/complete-done", nil, aw, "acquire/complete are the Add/Done of the condition the flush waits on", "")
 }
